@@ -300,12 +300,14 @@ def build():
         NP, "NumpyArrayWrapper.read_mmap", props=["C19"], ghost=dict(POS=INT, NBYTES=INT, PADBYTE=INT), setup=lambda i, e: i.ctx.assume(z3.And(
             ops.as_int_term(i.ctx.ghost["PADBYTE"]) >= 0, ops.as_int_term(i.ctx.ghost["PADBYTE"]) <= 255, ops.as_int_term(i.ctx.ghost["POS"]) >= 0, ops.as_int_term(i.ctx.ghost["NBYTES"]) >= 0)),
         globals=rglob, inline={"safe_get_numpy_array_alignment_bytes"},
-        params=dict(self=RD(), unpickler=unp(mmap_mode=OneOf("r", "r+", "w+", "c"), filename=STR)),
+        # mmap modes: joblib's documented ones and numpy's long spellings of the same four (numpy.memmap accepts both)
+        params=dict(self=RD(), unpickler=unp(mmap_mode=OneOf("r", "r+", "w+", "c", "readonly", "readwrite", "write", "copyonwrite"), filename=STR)),
         ensures={
             "maps_at_the_writers_data_offset": "ev_named('make_memmap')[0][1] == old(POS) + (1 + PADBYTE if self.numpy_array_alignment_bytes is not None else 0)",
             "handle_left_after_the_payload": "POS == old(POS) + (1 + PADBYTE if self.numpy_array_alignment_bytes is not None else 0) + NBYTES",
             "order_forwarded": "ev_named('make_memmap')[0][2] == self.order",
-            "w_plus_never_truncates_the_pickle": "ev_named('make_memmap')[0][3] != 'w+'",
+            # numpy's 'w+' / 'write' CREATES the file (all zeros): the persisted object would be destroyed by loading it
+            "w_plus_never_truncates_the_pickle": "ev_named('make_memmap')[0][3] != 'w+' and ev_named('make_memmap')[0][3] != 'write'",
         },
     ))
 
@@ -620,7 +622,8 @@ def build():
         # _get_backing_memmap: None, or the np.memmap the array's buffer belongs to
         if interp.ctx.choose(2, "backed-by-a-memmap") == 0:
             return None
-        m = Opaque("memmapobj", None, isinstance=("ndarray", "memmap"))
+        # numpy sets .filename to None for a memmap built on a file OBJECT without a name (tempfile.TemporaryFile()): no worker can re-open it
+        m = Opaque("memmapobj", None, isinstance=("ndarray", "memmap"), filename=Opt(STR).fresh(interp.ctx, "backing_filename"))
         interp.ctx.ghost["BACKING"] = m
         return m
 
@@ -693,6 +696,7 @@ def build():
         ensures_body={
             # C19: an array that already lives in a user's memmap is sent as a view of that file
             "memmap_backed_arrays_are_reduced_as_views_of_their_file": "implies(n_events('_reduce_memmap_backed') == 1, is_tag(result, 'reduced-as-view-of-its-file') and not memmapped() and n_events('dumps') == 0)",
+            "only_a_file_with_a_name_can_be_reopened_by_a_worker": "implies(n_events('_reduce_memmap_backed') == 1, ev_named('_reduce_memmap_backed')[0][2].filename is not None)",
             # C19: the threshold - arrays larger than max_nbytes become temporary memmaps, smaller ones, arrays holding Python objects and everything
             # when max_nbytes is None never do (the boundary nbytes == max_nbytes is left open: the documentation does not fix it)
             "above_the_threshold_means_memmapped": "implies(n_events('_reduce_memmap_backed') == 0 and not a.dtype.hasobject and self._max_nbytes is not None and a.nbytes > self._max_nbytes "
@@ -765,7 +769,7 @@ def build():
         k = interp.ctx.choose(3, "result-backed-by")
         if k == 0:
             return None
-        m = Opaque("memmapobj", None, isinstance=("ndarray", "memmap"), filename=STR.fresh(interp.ctx, "mfile"))
+        m = Opaque("memmapobj", None, isinstance=("ndarray", "memmap"), filename=Opt(STR).fresh(interp.ctx, "mfile"))
         interp.ctx.ghost["BACKING"] = m
         interp.ctx.ghost["TEMPORARY"] = (k == 2)
         return m
@@ -781,7 +785,7 @@ def build():
         params=dict(a=lambda i: Opaque("bigarray", None)),
         ensures={},
         ensures_body={
-            "views_of_a_users_file_go_back_as_views": "(n_events('_reduce_memmap_backed') == 1) == (BACKING_IS_USER_FILE())",
+            "views_of_a_users_named_file_go_back_as_views": "(n_events('_reduce_memmap_backed') == 1) == (BACKING_IS_USER_FILE() and BACKING.filename is not None)",
             "everything_else_goes_back_by_value": "implies(n_events('_reduce_memmap_backed') == 0, n_events('dumps') == 1 and is_tag(result[0], 'loads-function') and is_tag(ev_named('dumps')[0][1], 'plain-copy'))",
         },
     ))
